@@ -79,7 +79,7 @@ class AvroWriter:
         note("fastavro", "Writer writes the header at construction (and refuses a file that already has content unless opened 'a+'), buffers validated records, flush() writes the block; reader yields the flushed blocks' records")
         self.it, self.fp, self.schema, self.codec = it, fp, schema, codec
         self.buffer = []
-        if fp.content():
+        if [c for c in fp.content() if type(c).__name__ != "MagicSeg"]:
             # fastavro: a Writer on a file that already has content is an append, which needs the 'a+' mode
             raise PyRaise(ValueError("When appending to an avro file you must use the 'a+' mode, not just 'a'"))
         fp.write(AvroHeader(schema, codec))
@@ -133,6 +133,8 @@ class AvroReaderModel:
     def __init__(self, fp):
         segs = fp.remaining()
         fp.i = len(fp.segs)
+        if segs and type(segs[0]).__name__ == "MagicSeg":
+            raise PyRaise(ValueError("cannot read header - is it an avro file?"))  # still compressed
         if not segs or not isinstance(segs[0], AvroHeader):
             raise PyRaise(ValueError("cannot read header - is it an avro file?"))
         self.writer_schema = segs[0].schema
@@ -344,6 +346,80 @@ class SqlCon:
         self.in_transaction, self.work = False, None  # an open transaction is rolled back
 
 
+
+# ------------------------------------------------------------------------------------------------------------------ compression codecs
+CODEC_MAGIC = {"gzip": b"\x1f\x8b", "bz2": b"BZh", "lz4": b"\x04\x22\x4d\x18", "zstd": b"\x28\xb5\x2f\xfd"}  # the published leading bytes of each format
+
+
+class MagicSeg:
+    """First segment of a compressed file: the codec's published magic; the rest of the file is the (abstractly) compressed inner content."""
+
+    def __init__(self, codec):
+        self.codec, self.magic = codec, CODEC_MAGIC[codec]
+        self.length = len(self.magic)
+
+    def __repr__(self):
+        return f"<{self.codec} magic>"
+
+
+def codec_open(it, codec, target, mode="rb"):
+    """<codec>.open(path | file object, mode): writing emits the codec's magic first and then passes the content through; reading requires the magic and
+    yields the inner content (assumed contract: each codec's decompressor inverts its compressor and both use the published magic)."""
+    from .files import AbsFile
+
+    note("codecs", "gzip / bz2 / lz4 / zstd: a compressed file starts with the codec's published magic; the codec's reader returns exactly what its writer was given and refuses other input")
+    if isinstance(mode, str) and "t" in mode:
+        raise Unsupported("text-mode codec stream")
+    mode = mode if isinstance(mode, str) and "b" in mode else (mode or "r") + "b"
+    writing = any(c in mode for c in "wax")
+    fp = target if isinstance(target, AbsFile) else it.m_open(it, target, mode)
+    if writing:
+        fp.write(MagicSeg(codec))
+        return fp
+    rest = fp.remaining()
+    if not rest or not isinstance(rest[0], MagicSeg) or rest[0].codec != codec:
+        raise PyRaise(OSError(f"Not a {codec} file"))
+    inner = AbsFile(it, rest[1:], name=getattr(fp, "name", "fp"), mode=mode)
+    inner.outer = fp
+    return inner
+
+
+class _ZstdDecompressor:
+    def __init__(self, it):
+        self.it = it
+
+    def stream_reader(self, fp, *a, **k):
+        return codec_open(self.it, "zstd", fp, "rb")
+
+
+class _ZstdCompressor:
+    def __init__(self, it):
+        self.it = it
+
+    def stream_writer(self, fp, *a, **k):
+        return codec_open(self.it, "zstd", fp, "wb")
+
+
+class ZstdModel:
+    @staticmethod
+    def ZstdDecompressor(*a, **k):
+        raise RuntimeError("model placeholder")
+
+    @staticmethod
+    def ZstdCompressor(*a, **k):
+        raise RuntimeError("model placeholder")
+
+
+class Lz4FrameModel:
+    @staticmethod
+    def open(*a, **k):
+        raise RuntimeError("model placeholder")
+
+
+class Lz4Model:
+    frame = Lz4FrameModel
+
+
 def install(it):
     import datetime as _dtm
     import gzip
@@ -380,7 +456,19 @@ def install(it):
     it.models[os.rename] = m_rename
     it.models[os.makedirs] = m_makedirs
     it.models[os.path.realpath] = lambda it_, p, **k: it_.unbase(p)
-    it.models[gzip.GzipFile] = lambda it_, filename=None, mode="rb", *a, fileobj=None, **k: (fileobj if fileobj is not None else m_open(it_, filename, mode if "b" in mode else mode + "b"))
+    import bz2
+
+    it.models[gzip.GzipFile] = lambda it_, filename=None, mode="rb", *a, fileobj=None, **k: codec_open(it_, "gzip", fileobj if fileobj is not None else filename, mode or "rb")
+    it.models[bz2.BZ2File] = lambda it_, filename, mode="r", *a, **k: codec_open(it_, "bz2", filename, mode)
+    it.loader.module_models["lz4"] = Lz4Model
+    it.loader.module_models["lz4.frame"] = Lz4FrameModel
+    it.loader.module_models["zstandard"] = ZstdModel
+    it.models[Lz4FrameModel.open] = lambda it_, filename, mode="rb", *a, **k: codec_open(it_, "lz4", filename, mode)
+    it.models[ZstdModel.ZstdDecompressor] = lambda it_, *a, **k: _ZstdDecompressor(it_)
+    it.models[ZstdModel.ZstdCompressor] = lambda it_, *a, **k: _ZstdCompressor(it_)
+    import io as _io
+
+    it.models[_io.BufferedReader] = lambda it_, raw, *a, **k: raw  # the abstract files are peekable already
 
     def m_now(it_, tz=None):
         if it_.clock:
